@@ -944,9 +944,10 @@ class SklearnEKFAdapter(BaseEstimator):
             minimize_this(x0)
 
             result = minimize(minimize_this, x0, tol=1.0e-1)
-        except np.linalg.LinAlgError as error:
+        except (np.linalg.LinAlgError, AssertionError) as error:
             # The score of a candidate could not be evaluated (e.g. a singular
-            # innovation covariance): report it as a failed minimization
+            # innovation covariance, or a covariance that overflowed and failed
+            # the filter's validity assertion): report it as a failed minimization
             raise MinimizationFailure(
                 OptimizeResult(
                     success=False, message=f"Numerical failure while scoring: {error}"
